@@ -140,10 +140,16 @@ class Gen:
                 pad = self.pick('marker_pad', [1, 1, 2, 3])
                 inner = self.blocks(depth + 1, rng.randint(1, 2), first_para=True)
                 width = len(marker) + pad
+                if rng.random() < 0.08:
+                    # an item that begins with a blank line: the marker alone on its line, the content from the next line on
+                    self.choices['bare_marker_item'] = self.choices.get('bare_marker_item', 0) + 1
+                    width = len(marker) + 1
+                    lines.append(marker)
+                    inner = [''] + inner
                 for j, ln in enumerate(inner):
-                    if j == 0:
+                    if j == 0 and ln:
                         lines.append(marker + ' ' * pad + ln)
-                    else:
+                    elif j > 0 or ln:
                         lines.append((' ' * width + ln) if ln else '')
                 if loose and i < n - 1:
                     lines.append('')
